@@ -2,10 +2,10 @@
 SPECIFICATION Spec
 CONSTANTS
   ModeIds <- MCModeIds3
-  MaxModes = 4
+  MaxModes = 3
   MaxA = 2
-  MaxB = 3
-  MaxC = 3
+  MaxB = 2
+  MaxC = 2
   MaxOps = 8
   Walk = TRUE
   QRotRule = "product"
